@@ -265,6 +265,35 @@ Theorem c02_stream_text : forall fresh slots ops i w fl adj,
 Proof. exact stream_text_full. Qed.
 Print Assumptions c02_stream_text.
 
+(* ======== final round ========
+   operator== / operator!= are exactly "same Size() and same slots", after every history and whatever the
+   two buffers share: the same block with different lengths (one alias Reset()), different blocks with the
+   same bytes, the same block, no block at all. *)
+Theorem c02_equality_exact : forall fresh slots ops i j,
+  Forall op_ok ops ->
+  exists s, crun fresh (init_st slots) ops = Ok s /\
+    (is_live s i = true -> is_live s j = true ->
+     exists li lj, cquery s (QGetStr i) = Ok (ABytes li) /\ cquery s (QGetStr j) = Ok (ABytes lj) /\
+       (cquery s (QEq i j) = Ok (ABool true) <-> li = lj) /\
+       (cquery s (QEq i j) = Ok (ABool false) <-> li <> lj) /\
+       (cquery s (QNe i j) = Ok (ABool true) <-> li <> lj)).
+Proof. exact equality_exact_full. Qed.
+Print Assumptions c02_equality_exact.
+
+(* The documented text format with items as atoi reads them (extends c02_text_documented): an item is
+   either blank (nothing or white space only: a dropped zero) or optional white space, any number of
+   leading zeros, a value 0..255 in decimal, then anything that does not start with a digit and holds
+   no comma (trailing blanks, a stop character).  One slot per item with that value, the first 512.
+   Covers every item of the header's examples and of DmxBufferTest::testStringToDmx except the
+   out-of-range "266" (finding C20-dmx-atoi-truncation). *)
+Theorem c02_text_documented_general : forall fresh s i items,
+  inv s -> is_live s i = true ->
+  forallb gitem_ok items = true -> join_items (map gitem_text items) <> [] ->
+  exists s', cstep fresh s (OSetFromString i (join_items (map gitem_text items))) = Ok (s', RBool true) /\
+             inv s' /\ aget (abs s') i = Some (take 512 (map gitem_val items)).
+Proof. exact sfs_documented_general_step. Qed.
+Print Assumptions c02_text_documented_general.
+
 (* ---- the hypotheses are satisfiable, the model computes *)
 Example c02_ex_inv : inv (init_st 4).
 Proof. exact (inv_init 4). Qed.
@@ -326,4 +355,28 @@ Example c02_ex_stream :
   pad_text 14 42 0 (join_dec [0; 9; 10; 255]) = [42; 42; 42; 42; 48; 44; 57; 44; 49; 48; 44; 50; 53; 53] /\
   pad_text 14 42 1 (join_dec [0; 9; 10; 255]) = [48; 44; 57; 44; 49; 48; 44; 50; 53; 53; 42; 42; 42; 42] /\
   pad_text 3 42 0 (join_dec [0; 9; 10; 255]) = join_dec [0; 9; 10; 255] /\ pad_text 2 46 1 [] = [46; 46].
+Proof. repeat split; vm_compute; reflexivity. Qed.
+
+(* copy, Reset() one alias (same block, lengths 3 and 0): unequal; Reset() the other too (same block, both
+   empty): equal; a longer buffer with the same prefix: unequal; an emptied buffer equals a never initialised one *)
+Example c02_ex_equality :
+  (exists s, crun [] (init_st 4) [ONewStr 0 [1; 2; 3]; OCopyNew 1 0; OReset 1] = Ok s /\
+     cquery s (QEq 0 1) = Ok (ABool false) /\ cquery s (QNe 0 1) = Ok (ABool true) /\
+     internals s 0 = Some (Some 0%nat, true, 2%nat) /\ internals s 1 = Some (Some 0%nat, true, 2%nat)) /\
+  (exists s, crun [] (init_st 4) [ONewStr 0 [1; 2; 3]; OCopyNew 1 0; OReset 1; OReset 0;
+                                  ONewStr 2 [1; 2; 3]; ONewStr 3 [1; 2; 3]; OSetChannel 3 3 0] = Ok s /\
+     cquery s (QEq 0 1) = Ok (ABool true) /\ cquery s (QEq 2 3) = Ok (ABool false) /\
+     cquery s (QEq 1 2) = Ok (ABool false)) /\
+  (exists s, crun [] (init_st 4) [ONewStr 0 [1; 2; 3]; ONewStr 1 [1; 2; 3]; ONew 2; ONew 3; OReset 0] = Ok s /\
+     cquery s (QEq 0 1) = Ok (ABool false) /\ cquery s (QEq 2 3) = Ok (ABool true) /\
+     cquery s (QEq 0 2) = Ok (ABool true) /\
+     internals s 0 = Some (Some 0%nat, false, 1%nat) /\ internals s 2 = Some (None, false, 0%nat)).
+Proof. split; [|split]; eexists; repeat split; vm_compute; reflexivity. Qed.
+
+(* " 007 ,,\t10x,255  " : blanks, leading zeros, a stop character, trailing blanks *)
+Example c02_ex_text_general :
+  let items := [GNum [32] 2 7 [32]; GBlank []; GNum [9] 0 10 [120]; GNum [] 0 255 [32; 32]] in
+  forallb gitem_ok items = true /\
+  join_items (map gitem_text items) = [32; 48; 48; 55; 32; 44; 44; 9; 49; 48; 120; 44; 50; 53; 53; 32; 32] /\
+  sfs_values (join_items (map gitem_text items)) = [7; 0; 10; 255].
 Proof. repeat split; vm_compute; reflexivity. Qed.
